@@ -461,6 +461,15 @@ def run_module_operators():
             for ks in itertools.product(kinds, repeat=n):
                 for placement in PLACEMENTS:
                     combos.append((op, ks, placement))
+        if op == "$max":
+            # long argument lists: all integers, and one ill-typed argument at the front, in the middle, at the end
+            for n in (5, 8, 9, 10, 13):
+                for bad in (None, 0, n // 2, n - 1):
+                    for wrong in ("boolean", "enumA"):
+                        ks = tuple(wrong if i == bad else "integer" for i in range(n))
+                        combos.append((op, ks, "let"))
+                        if bad is None:
+                            break
     holder = {}
 
     def text_for(op, ks, placement):
@@ -514,6 +523,8 @@ def run_module_operators():
 
 PARAM_TYPES = {  # declared type of the parameter: kind of a reference to it (None: not allowed as a parameter type)
     "UInt:8": "integer", "Int:16": "integer", "EnumA": "enumA", "Flag": None, "UInt:8[4]": None, "Tee": None, "EnumA[2]": None,
+    # the declared type itself takes no arguments
+    "UInt(true):8": None, "UInt(1):8": None, "EnumA(1)": None,
 }
 PARAM_USES = {  # how the structure uses its parameter: the kind the use demands (None: any)
     "unused": ("", None),
